@@ -319,6 +319,9 @@ func checkC17(c *vh.Ctx) {
 	}
 	saved3 := cases
 	c.Correspond("part.count", cases, impl, 0, 0, func(i int) interface{} { return saved3[i] })
+
+	// ---------- end to end on shaped files: calculator ranges -> simulator -lines, lines identified by content
+	c17EndToEnd(c, calc, h2g)
 }
 
 func min(a, b int) int {
